@@ -15,7 +15,7 @@ fn tmerc_op(x0: f64, qs: f64, zb: f64) -> MOp {
     mk_op(std::mem::ManuallyDrop::into_inner(p), InnerOp(fwd), InnerOp(inv))
 }
 
-// @harness c10_tmerc_inv_strip_guard prop=C10 tier=thorough cap=3600 stubs="M-BTREE, S-ACC(x, lon, ellps), S-UF-SMALL(sin_cos, sin, cos, sinh, cosh, atan, atan2, hypot, asinh, atanh, tan, exp, sqrt)" bound="x_0, eastings/northings in D-SMALL, scaled radius in {1,2}, 3 tuples, z,t all f64: beyond the strip limit => x,y NaN and not counted; count == number of tuples inside; a tuple after a failing one is still processed; z,t bit-identical"
+// @harness c10_tmerc_inv_strip_guard prop=C10 tier=thorough cap=3600 may_timeout=yes stubs="M-BTREE, S-ACC(x, lon, ellps), S-UF-SMALL(sin_cos, sin, cos, sinh, cosh, atan, atan2, hypot, asinh, atanh, tan, exp, sqrt)" bound="x_0, eastings/northings in D-SMALL, scaled radius in {1,2}, 3 tuples, z,t all f64: beyond the strip limit => x,y NaN and not counted; count == number of tuples inside; a tuple after a failing one is still processed; z,t bit-identical"
 #[kani::proof]
 #[kani::stub(ParsedParameters::k, acc_k)]
 #[kani::stub(ParsedParameters::x, acc_x)]
